@@ -178,12 +178,43 @@ class ExprMixin:
             if attr is None:
                 return VModule(dotted)
             return VFunc('builtin', (f"{dotted}.{attr}",))
+        const = self.module_constant(mod, name)
+        if const is not None:
+            return const
         if name in B.BUILTINS:
             return VFunc('builtin', (name,))
         if name in ('ValueError', 'TypeError', 'IndexError', 'KeyError', 'Exception', 'StopIteration'):
             return VFunc('exc', (name,))
         if name in ('int', 'float', 'str', 'tuple', 'bool'):
             return VFunc('builtin', (name,))
+        return None
+
+    def module_constant(self, mod, name):
+        """a module-level name bound exactly once, to a number / string / bool literal (possibly negated), and never rebound (no `global` statement
+        names it): its value.  Anything else stays unbound (the function then leaves the subset)"""
+        tree = getattr(mod, 'tree', None)
+        if tree is None:
+            return None
+        hits = [n for n in tree.body if isinstance(n, (ast.Assign, ast.AnnAssign))
+                and any(isinstance(t, ast.Name) and t.id == name for t in (n.targets if isinstance(n, ast.Assign) else [n.target]))]
+        if len(hits) != 1 or hits[0].value is None:
+            return None
+        if any(isinstance(n, ast.Global) and name in n.names for n in ast.walk(tree)):
+            return None
+        val, neg = hits[0].value, False
+        if isinstance(val, ast.UnaryOp) and isinstance(val.op, ast.USub):
+            val, neg = val.operand, True
+        if not isinstance(val, ast.Constant):
+            return None
+        c = val.value
+        if isinstance(c, bool):
+            return None if neg else VBool(z3.BoolVal(c))
+        if isinstance(c, int):
+            return VInt(z3.IntVal(-c if neg else c))
+        if isinstance(c, float):
+            return VReal(z3.RealVal(repr(-c if neg else c)))
+        if isinstance(c, str) and not neg:
+            return VStr(c)
         return None
 
     def ev_UnaryOp(self, node, st):
